@@ -37,7 +37,9 @@ type StepSpec struct {
 	RepeatMs     int      `json:"repeatMs,omitempty"`
 	HasPrecond   bool     `json:"hasPrecond,omitempty"`
 	PrecondUnmet bool     `json:"precondUnmet,omitempty"`
-	FailFirst    int      `json:"failFirst,omitempty"` // fail the first k attempts; -1 = always
+	PrecondN     int      `json:"precondN,omitempty"`     // number of conditions in the list (0 = 1)
+	PrecondBadAt int      `json:"precondBadAt,omitempty"` // index of the unmet condition when PrecondUnmet
+	FailFirst    int      `json:"failFirst,omitempty"`    // fail the first k attempts; -1 = always
 	IgnoreTerm   bool     `json:"ignoreTerm,omitempty"`
 	Never        bool     `json:"never,omitempty"` // never returns by itself
 	SignalOnStop string   `json:"signalOnStop,omitempty"`
